@@ -266,7 +266,7 @@ def check_series(case):
 # ------------------------------------------------------------ (c) malformed
 
 KINDS = ['rain-row-removed', 'rain-row-displaced', 'rain-row-duplicated',
-         'et-row-missing', 'et-row-displaced', 'reload']
+         'rain-row-repeated', 'et-row-missing', 'et-row-displaced', 'reload']
 
 
 @st.composite
@@ -299,6 +299,8 @@ def check_malformed(case):
     dt, t0 = record['dt'], record['t0']
     grid_idx = [(t - t0) // dt for t in want['grid'][:-1]]
     load_mod = tree.mod('load')
+    # a displacement stays inside the victim's own step (steps of 90 s)
+    delta = (abs(case['delta']) % dt or 1) * (1 if case['delta'] > 0 else -1)
 
     def attempt(rec, connection=None):
         texts = dataset.render_files(rec)
@@ -345,10 +347,16 @@ def check_malformed(case):
             record['rain'] = rows
         else:
             # express a displaced / extra row through a fractional index
-            frac = case['delta'] / dt
+            frac = delta / dt
             if kind == 'rain-row-displaced':
                 rows = [[r[0] + frac, r[1]] if r[0] == victim else r
                         for r in rows]
+            elif kind == 'rain-row-repeated':
+                # one timestamp twice (overlapping logger downloads) with
+                # conflicting values: steps dt, 0, dt
+                at = [i for i, r in enumerate(rows) if r[0] == victim][0]
+                rows.insert(at + (case['pick'] % 2),
+                            [victim, rows[at][1] + 0.5])
             else:
                 rows.append([victim + frac, 0.5])
             record['rain'] = rows
@@ -359,7 +367,7 @@ def check_malformed(case):
         # the ET record of one grid step is stamped a little late: ET is
         # missing AT the grid time although a record lies inside the step
         victim = grid_idx[case['pick'] % len(grid_idx)]
-        frac = abs(case['delta']) / dt
+        frac = abs(delta) / dt
         record['et'] = [[r[0] + frac, r[1]] if r[0] == victim else r
                         for r in record['et']]
     connection, error = attempt(record)
